@@ -238,6 +238,43 @@ def percentEncode : Bytes → Bytes
   | b :: t => if shouldEscape b then 0x25 :: upperHex (b.toNat / 16) :: upperHex (b.toNat % 16) :: percentEncode t
               else b :: percentEncode t
 
+/-! ## the reference server's own rendering of a Connect error as gRPC status trailers
+
+`internal/app/referenceserver/impl.go`: `grpcStatusTrailers` (used by the hand-built raw gRPC
+and gRPC-Web responses of reference mode: a unary error with custom response headers).
+base64 and the protobuf encoding of `google.rpc.Status` are outside the model: `bin` is the
+decoded message. -/
+
+/-- `google.rpc.Status` as carried in `grpc-status-details-bin`: code, message (UTF-8 bytes), details -/
+structure StatusBin where
+  code : Int
+  message : Bytes
+  details : List Detail
+deriving DecidableEq, Repr
+
+/-- the three status trailers as they appear on the wire -/
+structure StatusTrailers where
+  /-- `grpc-status`, decimal -/
+  status : Int
+  /-- `grpc-message`, percent-encoded -/
+  message : Bytes
+  /-- `grpc-status-details-bin`, only when the error has details -/
+  bin : Option StatusBin
+deriving DecidableEq, Repr
+
+/-- `grpcStatusTrailers` on an error given by its parts (`msg` = the UTF-8 bytes of
+`err.Message()`): the message is percent-encoded in `grpc-message` and raw inside the
+`google.rpc.Status`; every detail gets the default prefix in front of its `Type()`. -/
+def statusTrailersOf (code : Int) (msg : Bytes) (details : List Detail) : StatusTrailers :=
+  { status := code,
+    message := percentEncode msg,
+    bin := if details.isEmpty then none
+           else some { code := code, message := msg,
+                       details := details.map (fun d => { url := anyPrefix ++ typeName d.url, value := d.value }) } }
+
+def grpcStatusTrailers (e : ConnectErr) : StatusTrailers :=
+  statusTrailersOf e.code e.message.toUTF8.toList e.details
+
 /-! ## strict codecs, relative to an underlying (un)marshaller
 
 `dec` returns the decoded message together with its unknown-field bytes. -/
